@@ -250,9 +250,11 @@ PROPS = {
         'explanation': 'Mixed: width-neutrality of sequences is proved; the end-to-end statement is relational and bounded.',
     },
     'C14': {
-        'units': [], 'level': 'exploration', 'trusted': ['A13'],
-        'bounded_part': 'BEC only.',
-        'explanation': 'Bounded only: idempotence is relational over two calls of fill, and the second call runs on a different text; no single-call contract expresses it without a full functional '
+        'units': ['U1'], 'level': 'exploration', 'trusted': ['A1', 'A5', 'A12', 'A13'],
+        'proved_part': 'Verus (U1), as a guard on the one single-call fact idempotence under first-fit rests on — not a proof of the property: wrap_first_fit ends a line exactly where the next fragment, '
+                       'with the width of its penalty, no longer fits, so every line of the first result that holds more than one fragment fits the width, hyphen included, and is kept whole by the second call.',
+        'bounded_part': 'BEC: the property itself.',
+        'explanation': 'Decided by the bounded contract: idempotence is relational over two calls of fill, and the second call runs on a different text; no single-call contract expresses it without a full functional '
                        'specification of what the four word stages and the line breaker compute (over uninterpreted floats) — wrap\'s functional postcondition (U11) says how they are composed, not what they return. '
                        'The deductive technique does not apply; the property is claimed at level exploration through its bounded executable contract (the permitted bounded stand-in), never counted as proved. '
                        'Known finding KF6 lies in it.',
